@@ -128,7 +128,7 @@ pub fn run(world: &World, ctx: &mut Ctx) -> Option<Value> {
     ctx.ev.rule = RULE.to_string();
     use crate::ir::Kind;
     let pairs: Vec<_> = super::pairs(world, &[]).into_iter().filter(|(g, r)| matches!(g.rules[*r].1, Kind::Normal | Kind::Compound | Kind::NonAtomic) && g.rules[*r].0 != "EOI").collect();
-    let total = ctx.tier.pick(120_000u64, 2_500_000u64);
+    let total = ctx.tier.pick(200_000u64, 3_000_000u64);
     let n = super::per_pair(total, pairs.len(), 30, 20_000);
     ctx.ev.extra.insert("grammar_rule_pairs".into(), json!(pairs.len()));
     ctx.ev.extra.insert("cases_per_pair".into(), json!(n));
